@@ -209,8 +209,9 @@ def run(ctx):
     def gate_for(fld, par):
         def pred(atom, pol):
             n = mp.N(atom)
-            if n['k'] == 'CXXMemberCallExpr' and q.short_of(mp.callee(atom)) == 'empty' and (q.obj_field(mp, atom) or '').endswith('mount_point::' + fld):
-                return pol is True
+            em = q.emptiness(mp, atom, pol)
+            if em is not None and (q.obj_field(mp, em[0]) or '').endswith('mount_point::' + fld):
+                return em[1]
             if n['k'] in model.CALL_KINDS and mp.bcallee(atom) == 'booster::regex_match':
                 a = mp.args(atom)
                 return pol is True and model.strip_targs(mp.ref_of(rx_arg(mp, atom)) or '').endswith('mount_point::' + fld) and mp.ref_of(a[0]) == par
